@@ -8,6 +8,7 @@ import (
 	"fmt"
 	"math"
 	"os"
+	"runtime"
 	"sort"
 	"strings"
 	"time"
@@ -33,7 +34,7 @@ const tsBase = uint64(1700000000000)
 const indexName = "c01idx"
 
 // ---------- ops and observations ----------
-// kinds: card (N) ; ingest (Docs) ; flush (Probe) ; rotate ; query (Page) ; restart (runner only)
+// kinds: card (N) ; procs (N) ; ingest (Docs) ; flush (Probe) ; reread (Orders) ; rotate ; query (Page) ; restart (runner only)
 type Op struct {
 	Kind  string   `json:"k"`
 	N     int      `json:"n,omitempty"`
@@ -42,6 +43,7 @@ type Op struct {
 	Page  int      `json:"page,omitempty"`
 	Text  string   `json:"text,omitempty"` // query text (default *)
 	Nulls bool     `json:"nulls,omitempty"` // query with includeNulls=true
+	Orders [][]int `json:"orders,omitempty"` // reread: block-number sequences, each read by ONE reader set
 }
 
 // one column of one flushed block
@@ -77,7 +79,24 @@ type FlushObs struct {
 	Cols     []ColObs `json:"cols"`
 }
 
+// reread: one TimeRangeReader and one SegmentFileReader per column read the blocks of the open
+// segment in a given order, the way one block worker of a segment search does
+type RereadBlk struct {
+	Blk    int                 `json:"blk"`
+	N      int                 `json:"n"`
+	TsLen  int                 `json:"tslen"` // bytes of the timestamp block on disk
+	TsRead []uint64            `json:"tsread"`
+	TsErr  string              `json:"tserr,omitempty"`
+	Cols   map[string][]string `json:"cols"` // column -> records (hex, "!"+error); columns absent in the block are missing
+}
+type RereadObs struct {
+	SegKey string      `json:"segkey"`
+	Order  []int       `json:"order"`
+	Blocks []RereadBlk `json:"blocks"`
+}
+
 type Obs struct {
+	Rereads []RereadObs         `json:"rereads,omitempty"`
 	Err     string              `json:"err,omitempty"`
 	Count   int                 `json:"count,omitempty"`
 	Status  []int               `json:"status,omitempty"` // ingest: per-document status of the bulk response
@@ -370,6 +389,132 @@ func probeFlush() ([]FlushObs, error) {
 	return out, nil
 }
 
+// rereadAll: for every open segment and every order, ONE TimeRangeReader and ONE SegmentFileReader per
+// column (no constant record length: the match-all record fetch) read the blocks in that order.
+func rereadAll(orders [][]int) ([]RereadObs, error) {
+	var out []RereadObs
+	tsKey := config.GetTimeStampKey()
+	for _, p := range writer.VerifC01Snapshot() {
+		if p.NumBlocks == 0 {
+			continue
+		}
+		allBmi, err := writer.GetBlockSearchInfoForKey(p.SegKey)
+		if err != nil {
+			return nil, fmt.Errorf("GetBlockSearchInfoForKey: %v", err)
+		}
+		sums, err := writer.GetBlockSummaryForKey(p.SegKey)
+		if err != nil {
+			return nil, err
+		}
+		blocks := map[uint16]struct{}{}
+		cnt := map[uint16]uint16{}
+		for i, s := range sums {
+			blocks[uint16(i)] = struct{}{}
+			cnt[uint16(i)] = s.RecCount
+		}
+		var cnames []string
+		for c := range allBmi.CnameDict {
+			if c != tsKey {
+				cnames = append(cnames, c)
+			}
+		}
+		sort.Strings(cnames)
+		for _, order := range orders {
+			ro := RereadObs{SegKey: p.SegKey}
+			for _, b := range order {
+				if b >= 0 && b < len(sums) {
+					ro.Order = append(ro.Order, b)
+				}
+			}
+			for _, b := range ro.Order {
+				ro.Blocks = append(ro.Blocks, RereadBlk{Blk: b, N: int(sums[b].RecCount), Cols: map[string][]string{}})
+			}
+			present := func(cname string, b int) (uint32, bool) {
+				idx, ok := allBmi.CnameDict[cname]
+				bmh := allBmi.AllBmh[uint16(b)]
+				if !ok || bmh == nil || idx >= len(bmh.ColBlockOffAndLen) || bmh.ColBlockOffAndLen[idx].Length == 0 {
+					return 0, false
+				}
+				return bmh.ColBlockOffAndLen[idx].Length, true
+			}
+			// timestamps
+			if fd, err := os.Open(csgName(p.SegKey, tsKey)); err == nil {
+				tr, err := segread.InitNewTimeReaderWithFD(fd, tsKey, blocks, cnt, 0, allBmi)
+				if err != nil {
+					fd.Close()
+					return nil, err
+				}
+				for i, b := range ro.Order {
+					l, _ := present(tsKey, b)
+					ro.Blocks[i].TsLen = int(l)
+					func() {
+						defer func() {
+							if r := recover(); r != nil {
+								ro.Blocks[i].TsErr = fmt.Sprintf("panic: %v", r)
+							}
+						}()
+						ts, err := tr.GetAllTimeStampsForBlock(uint16(b))
+						if err != nil {
+							ro.Blocks[i].TsErr = err.Error()
+						} else {
+							ro.Blocks[i].TsRead = append([]uint64{}, ts...)
+						}
+					}()
+				}
+				_ = tr.Close()
+			} else {
+				return nil, err
+			}
+			// columns
+			for _, cname := range cnames {
+				fd, err := os.Open(csgName(p.SegKey, cname))
+				if err != nil {
+					return nil, err
+				}
+				rd, err := segreader.InitNewSegFileReader(fd, cname, blocks, 0, sums, sutils.INCONSISTENT_CVAL_SIZE, allBmi)
+				if err != nil {
+					fd.Close()
+					return nil, err
+				}
+				for i, b := range ro.Order {
+					_, ok := present(cname, b)
+					var recs []string
+					func() {
+						defer func() {
+							if r := recover(); r != nil {
+								recs = append(recs, fmt.Sprintf("!panic: %v", r))
+							}
+						}()
+						if err := rd.ValidateAndReadBlock(uint16(b)); err != nil {
+							recs = append(recs, "!load: "+err.Error())
+							return
+						}
+						if !ok {
+							return
+						}
+						for k := 0; k < int(sums[b].RecCount); k++ {
+							rec, err := rd.ReadRecord(uint16(k))
+							if err != nil {
+								recs = append(recs, "!"+err.Error())
+							} else if rec == nil {
+								recs = append(recs, "!nil")
+							} else {
+								recs = append(recs, hex.EncodeToString(rec))
+							}
+						}
+					}()
+					if ok {
+						ro.Blocks[i].Cols[cname] = recs
+					}
+				}
+				_ = rd.Close()
+			}
+			out = append(out, ro)
+		}
+	}
+	return out, nil
+}
+
 func workerMain(dir, scriptPath, outPath string) {
 	if os.Getenv("C01_LOG") == "" {
 		log.SetLevel(log.PanicLevel)
@@ -399,6 +544,16 @@ func workerMain(dir, scriptPath, outPath string) {
 		switch op.Kind {
 		case "card":
 			writer.SetCardinalityLimit(uint16(op.N))
+		case "procs":
+			// number of CPUs of the deployment: a segment search starts GOMAXPROCS block workers and hands
+			// them at most GOMAXPROCS blocks (or all blocks ending at the same millisecond) per round
+			runtime.GOMAXPROCS(op.N)
+		case "reread":
+			rr, err := rereadAll(op.Orders)
+			if err != nil {
+				obs[i].Err = err.Error()
+			}
+			obs[i].Rereads = rr
 		case "ingest":
 			var sb strings.Builder
 			for _, d := range op.Docs {
